@@ -242,3 +242,15 @@ func Harness_C05_roundtrip() {
 	s.lookups()
 	vreach("end")
 }
+
+// a lookup before the fault and again after it, in one process: whatever the
+// first lookup left behind in package-level state must not let the second
+// one hand out damaged data
+func Harness_C05_lookup_fault_lookup() {
+	s := c05OpenFast()
+	s.put(0, vchoose(len(c05Contents)))
+	s.lookups()
+	s.damage()
+	s.lookups()
+	vreach("end")
+}
